@@ -24,7 +24,7 @@ func (c *Ctx) GC(fn *ssa.Function) *GCNF {
 	if g, ok := c.gcs[fn]; ok {
 		return g
 	}
-	g := linkStackRecForm(c.p, BuildGCNF(c.p, c.E(), fn))
+	g := tailRecHelperAsLoop(c, linkStackRecForm(c.p, BuildGCNF(c.p, c.E(), fn)))
 	c.gcs[fn] = g
 	return g
 }
